@@ -227,6 +227,19 @@ CHECKS['C14'] = dict(
          'merged datasets of up to 4 probes.',
     design_ref='4 (C14)', technique='TLA+/TLC model checking of the pipeline over file names + trace validation of exported values',
     note=_NOTE + ' Two known findings (not repaired): clusters.depths of un-curated empty ids; short probes padded with other-probe channels.')
+CHECKS['C10'] = dict(
+    text='World.tla: the dataset directory as far as curation is concerned (which assignment spike_clusters.npy '
+         'holds, the rows of each cluster_<field>.tsv the model wrote, which foreign TSV/CSV files exist, the subset '
+         'store) and the open model; actions SaveSpikeClusters, SaveMetadata (drops None, overwrites), WriteForeign '
+         '(valid / empty / garbage / header-only / short-row / cluster_info), ExportSubset, Close, Reload. TLC proves '
+         'on every reachable state that the file-based reload equals the dictionary reference model (last saved '
+         'assignment, last saved mapping per field with None entries dropped, empty mappings absent, valid foreign '
+         'fields next to them, malformed files inert). Every 4-operation history ending in a reload and '
+         'TLC-simulated 12-operation histories are replayed on a generated dataset with raw data; every reload is '
+         'compared (incl. templates / times unchanged and store waveforms = raw windows); random 25-operation '
+         'histories are validated per operation by Trace_World.',
+    design_ref='4 (C10)', technique='TLA+/TLC model checking of save/reload histories + history replay (BFS + simulation) + trace validation',
+    note=_NOTE + ' Foreign files use their own field names (two files with the same field: winner depends on directory order).')
 
 NOT_APPLICABLE = {}
 for e in ENGINES:
